@@ -956,13 +956,37 @@ namespace riddle
             tk = next();
 
             size_t c_pos = pos;
+            bool is_cast = true; // a cast is a (qualified) identifier within parentheses followed by an expression..
             do
             {
                 if (!match(ID_ID))
-                    error("expected identifier..");
+                {
+                    is_cast = false;
+                    break;
+                }
             } while (match(DOT_ID));
 
-            if (match(RPAREN_ID)) // a cast..
+            if (is_cast && match(RPAREN_ID))
+                switch (tk->sym)
+                { // what follows must be able to start an expression, otherwise this is a parenthesized identifier..
+                case BoolLiteral_ID:
+                case IntLiteral_ID:
+                case RealLiteral_ID:
+                case StringLiteral_ID:
+                case LPAREN_ID:
+                case PLUS_ID:
+                case MINUS_ID:
+                case BANG_ID:
+                case NEW_ID:
+                case ID_ID:
+                    break;
+                default:
+                    is_cast = false;
+                }
+            else
+                is_cast = false;
+
+            if (is_cast) // a cast..
             {
                 backtrack(c_pos);
                 std::vector<id_token> ids;
